@@ -243,7 +243,68 @@ def r_own(ctx):
                 ctx.incomplete_msg(rid, "%s: origin of the stored span (`%s`) not recognised" % (fi.name, local_span))
 
 
+def r_identspan(ctx):
+    rid = "C15.identspan"
+    ctx.rule(rid, "convert_identifier gives an Identifier the span of its whole pair — the socket prefix `$` / `$$` belongs to the identifier "
+                  "(Identifier carries `socket`), so a position derived from the span points at the first character of the name as written; "
+                  "a plain name gets the span of the pair as well (abstract evaluation on grammar-shaped pairs with distinct spans for the "
+                  "pair, the socket and the id token)", floor=3)
+    B = "src/pest_bridge.rs"
+    fi = None
+    for x in ctx.facts.fn_all(B, "convert_identifier"):
+        if all(absint.default_cfg(c) for c in x.cfg):
+            fi = x
+    if fi is None:
+        raise vf.Incomplete("convert_identifier not found")
+
+    def P(rule, text, lo, hi, *kids):
+        return ("enum", "Pair", {"rule": rule, "text": text, "span": (lo, hi), "children": list(kids)})
+    cases = {"plain": P("typename", "foo", 10, 13, P("id", "foo", 10, 13)),
+             "$socket": P("typename", "$foo", 10, 14, P("socket_type", "$", 10, 11), P("id", "foo", 11, 14)),
+             "$$socket": P("groupname", "$$foo", 10, 15, P("socket_group", "$$", 10, 12), P("id", "foo", 12, 15))}
+    for cname, pair in cases.items():
+        def on_call(knd, name, node, args, recv):
+            if knd == "method" and isinstance(recv, tuple) and recv[:2] == ("enum", "Pair"):
+                d = recv[2]
+                if name == "as_rule":
+                    return ("enum", "Rule::" + d["rule"], [])
+                if name == "into_inner":
+                    return absint.PyIter(d["children"])
+                if name == "as_str":
+                    return ("str", d["text"])
+                if name == "as_span":
+                    return ("pestspan",) + d["span"]
+                if name == "clone":
+                    return recv
+            if knd == "fn" and name and name.split("::")[-1] == "pest_span_to_ast_span" and args and isinstance(args[0], tuple) and args[0][:1] == ("pestspan",):
+                return ("tuple", [args[0][1], args[0][2], 1])
+            return NotImplemented
+        it = Interp(env={"pair": pair, "input": OPAQUE, "_is_group": False, "is_group": False}, cfg=absint.default_cfg, on_call=on_call)
+        it.resolve_fn = vf.new_fn_resolver(ctx.facts, [B], cfg=absint.default_cfg)
+        try:
+            try:
+                res = it.block(fi.node["body"])
+            except Return as r:
+                res = r.v
+        except Unknown as e:
+            ctx.incomplete_msg(rid, "%s: %s" % (cname, e))
+            continue
+        sp = None
+        if isinstance(res, tuple) and res[0] == "Ok" and isinstance(res[1], tuple) and res[1][:1] == ("enum",) and isinstance(res[1][2], dict):
+            sp = res[1][2].get("span")
+        if not (isinstance(sp, tuple) and sp[:1] == ("tuple",) and not absint.has_opaque(sp)):
+            ctx.incomplete_msg(rid, "%s: the identifier's span could not be evaluated (%r)" % (cname, sp))
+            continue
+        got = tuple(sp[1][:2])
+        want = pair[2]["span"]
+        ctx.site(rid, cname, B, fi.line, {"span": list(got)})
+        if got != want:
+            ctx.violation(rid, cname, B, fi.line, "convert_identifier gives `%s` (bytes %d..%d) the span %r: positions reported for this identifier point past its "
+                          "socket prefix; the span of the identifier as written is %r" % (pair[2]["text"], want[0], want[1], got, want))
+
+
 def run(ctx):
     ctx.guarded("C15.errpos", r_errpos)
     ctx.guarded("C15.spanpos", r_spanpos)
     ctx.guarded("C15.own", r_own)
+    ctx.guarded("C15.identspan", r_identspan)
